@@ -113,10 +113,22 @@ func genEpisode(seed uint64, e int, thorough bool) *Episode {
 	if len(enabled) < 3 {
 		enabled = callKinds
 	}
+	// one episode in five is a long private-key workload: a few goroutines, each
+	// driving its own XMSS object (same height) through many signatures and
+	// jumps, so that state shared between distinct key objects gets used
+	longPriv := r.Chance(0.2)
+	if longPriv {
+		n = r.Range(2, 3)
+		enabled = []string{"psign", "psign", "psign", "psign", "pset", "pset", "pget", "xverify"}
+	}
 	for t := 0; t < n; t++ {
 		var calls []Call
 		nc := r.Range(2, 7)
+		if longPriv {
+			nc = r.Range(8, 16)
+		}
 		pidx := 0
+		leaves := 1 << privHeight(t)
 		for len(calls) < nc {
 			k := enabled[r.Intn(len(enabled))]
 			c := Call{K: k, A: r.Intn(64), B: r.Intn(64)}
@@ -130,19 +142,22 @@ func genEpisode(seed uint64, e int, thorough bool) *Episode {
 				case 0:
 					c.A = pidx // distance 0
 				case 1:
-					c.A = 16 + r.Intn(3) // refused: too high
+					c.A = leaves + r.Intn(3) // refused: too high
 				case 2:
 					if pidx > 0 {
 						c.A = r.Intn(pidx) // refused: rewind
 					}
 				default:
 					c.A = pidx + r.Intn(4)
+					if leaves > 16 && r.Chance(0.3) {
+						c.A = pidx + r.Intn(20)
+					}
 				}
-				if c.A >= pidx && c.A < 16 {
+				if c.A >= pidx && c.A < leaves {
 					pidx = c.A
 				}
 			case "psign":
-				if pidx < 16 {
+				if pidx < leaves {
 					pidx++
 				}
 			}
